@@ -445,7 +445,7 @@ func c13xJudge(c c13xCase) (c13xObs, string) {
 
 // ---- generator ----------------------------------------------------------------------------------
 
-var c13xCtxs = []string{"", "usertx", "skipdefault", "prepare", "nested"}
+var c13xCtxs = []string{"", "usertx", "skipdefault", "prepare", "nested", "prepare-session"}
 
 func c13xCore() []c13xCase {
 	var cs []c13xCase
